@@ -62,6 +62,34 @@ impl Encoder<BytesMut> for BytesCodec {
     }
 }
 
+/// Codec for `UdpFramed`: every received datagram is one item, the empty datagram included
+/// (`BytesCodec` yields nothing for an empty buffer and so drops zero-length datagrams)
+#[derive(Default)]
+pub struct DatagramCodec {
+    taken: bool,
+}
+
+impl Decoder for DatagramCodec {
+    type Item = BytesMut;
+
+    type Error = anyhow::Error;
+
+    fn decode(&mut self, buf: &mut BytesMut) -> Result<Option<BytesMut>> {
+        // UdpFramed calls decode until it returns None: the first call takes the datagram, the second ends it
+        self.taken = !self.taken;
+        if self.taken { Ok(Some(buf.split())) } else { Ok(None) }
+    }
+}
+
+impl Encoder<BytesMut> for DatagramCodec {
+    type Error = anyhow::Error;
+
+    fn encode(&mut self, data: BytesMut, buf: &mut BytesMut) -> Result<()> {
+        buf.extend_from_slice(&data);
+        Ok(())
+    }
+}
+
 pub type DatagramPacket = (BytesMut, Address);
 
 pub struct WebSocketFramed<T, C, E, D> {
